@@ -111,6 +111,15 @@ def c11_stages(tier):
     return [ptfs_stage("C11", 480 if tier == "quick" else 12_000, timeout=3000, crash_is_violation=True)]
 
 
+def c20_stages(tier):
+    st = {"name": "native", "kind": "native", "pkg": "asyncx", "bin": "asyncx", "prop": "C20", "core": True, "timeout": 2400, "crash_is_violation": True}
+    st["cases"] = 60_000 if tier == "quick" else 3_000_000
+    out = [st]
+    if tier == "thorough":
+        out.append(dict(st, name="asan", kind="asan", cases=200_000, core=False))
+    return out
+
+
 def c15_stages(tier):
     return [ptfs_stage("C15", 4_000 if tier == "quick" else 150_000, timeout=2400, crash_is_violation=True)]
 
@@ -368,6 +377,24 @@ PROPS = {
                       "one operation is not injected, so 'crash point' means 'between operations'.",
         "rule": "evaluations = restart comparisons (one per operation); distinct = (operation, reference outcome class, overlay outcome class, upper present, number of lowers).",
         "assumptions": ["runs as root on a filesystem supporting trusted.* xattrs and 0:0 char devices"],
+    },
+    "C20": {
+        "level": "exploration",
+        "stages": c20_stages,
+        "floor": 1000,
+        "technique": "runtime monitoring: differential of async_handle_message against handle_message (crate feature async-io, the crate's own tokio-uring/tokio runtime) "
+                     "on the call log of one scripted filesystem implementing both traits and on the reply bytes, over well-formed, mutated and random requests on both transports",
+        "level_text": "Every request byte string (well-formed requests of all 47 opcodes, C01's 12 structured mutation classes, random bytes) goes to a fresh (ScriptFs, Server) pair "
+                      "through handle_message and to another fresh pair with the same seed through async_handle_message; protocol minor is the server default or negotiated "
+                      "(3/4/12/31/38). The scripted filesystem takes the same seeded decisions in both traits and logs both under the same method names; READ data goes "
+                      "through write()/write_from() resp. write()/async_write_from(), WRITE data through read() resp. read()/async_read_to(). The monitor compares the complete "
+                      "call logs (method, every argument, every payload byte, result) and the reply bytes or their absence; an asynchronous panic, crash or stray memory write is "
+                      "a violation too. Transports: /dev/fuse writer (separate and aliased buffers) over an O_APPEND memfd, virtio descriptor chains of random shapes.",
+        "level_note": "Reply capacity is always ample (capacity is C01's quantifier). The /dev/fuse stand-in is a memfd because the asynchronous writer uses pwrite(); it records the "
+                      "concatenation of all writes, not their boundaries, so 'one write call per reply' is not checked here (C01 checks it for the synchronous path). open/create never "
+                      "return a passthrough backing id in these runs: the asynchronous trait cannot express one. The return value of the handlers is compared only as a counter.",
+        "rule": "evaluations = request byte strings run through both handlers; distinct = (opcode, mutation class, transport, filesystem method reached, outcome class, number of replies, protocol minor).",
+        "assumptions": ["io_uring or the tokio fallback of the crate's async_runtime is usable in the sandbox", "kernel layout table from /usr/include/linux/fuse.h"],
     },
     "C16": {
         "level": "exploration",
